@@ -827,7 +827,10 @@ func parseFloatV(s value) value {
 	}
 	var r *sym.Term = sym.ToReal(num)
 	if scale > 1 {
-		r = sym.Rnd(sym.RDiv(r, sym.RealF(float64(scale)))) // correctly rounded decimal conversion
+		// correctly rounded decimal conversion; a decimal that denotes an integer ("2.0") is that
+		// integer exactly (at most 15 digits, so it is representable)
+		whole := sym.Eq(sym.ModFloor(num, sym.Int(scale)), sym.Int(0))
+		r = sym.Ite(whole, sym.ToReal(sym.DivFloor(num, sym.Int(scale))), sym.Rnd(sym.RDiv(r, sym.RealF(float64(scale)))))
 	}
 	if neg {
 		r = sym.Neg(r)
